@@ -50,7 +50,7 @@ def plan(tier, seed):
     # coil / channel entries, probes scaled by 1e-8 / 1e+8 (the identity is homogeneous)
     for kind in lops.LEAF_KINDS:
         rng = P.rng("big:" + kind)
-        for i in range(5 if tier == "quick" else 60):
+        for i in range(8 if tier == "quick" else 80):
             d = lops.gen_leaf(rng, kind, None, 34)
             if d is None:
                 continue
